@@ -273,10 +273,10 @@ PROPS['C17'] = dict(level=MC, rule=RULE_C, assumptions=ASSUME_URL + [
     'ownership (each owned string / list / iterator / handle released exactly once, no leak, no double free) is observed on the '
     'ASan + LSan build: the executors release everything they obtain exactly once, a leak or double free ends the trace with a crashed line',
     'has_opaque_path / href_size / has_valid_domain have no C accessor and are taken from the C++ twin'],
-    workloads=[W_WPT_URL, W_HIST(400, 12000), W_PARSE(500, 15000),
-               dict(name='setter-histories-sanitized', gen=w_hist, n_quick=150, n_thorough=5000, configs=['asan']),
-               W_P_MIXED, W_P_MIXED_SAN, WI('wpt-idna-inputs', gen_idna.w_wpt_inputs, 1, 0),
-               W_BYTES(600, 20000, ['asan'], name='byte-battery')])
+    workloads=[W_WPT_URL, W_HIST(0, 12000), W_PARSE(0, 15000),
+               dict(name='setter-histories-sanitized', gen=w_hist, n_quick=200, n_thorough=5000, configs=['asan']),
+               dict(W_P_MIXED, n_quick=400), W_P_MIXED_SAN, WI('wpt-idna-inputs', gen_idna.w_wpt_inputs, 1, 0),
+               W_BYTES(300, 20000, ['asan'], name='byte-battery')])
 
 # ---- C18: behaviour does not depend on the build configuration (exploration: differential over configurations)
 RULE_CFG = ('cases = public calls of ONE deterministic workload (grammar parse, setter histories, host lattice, SIMD offsets, '
@@ -382,8 +382,9 @@ PROPS['C15'] = dict(level=MC, rule=RULE_PAT, assumptions=ASSUME_PAT,
                                WPAT('constructor-strings', gen_pattern.w_constructor_strings, 1500, 60000),
                                WPAT('match-grammar', gen_pattern.w_match_grammar, 500, 20000)])
 PROPS['C14'] = dict(level=MC, rule=RULE_PAT, assumptions=ASSUME_PAT,
-                    workloads=[W_PAT_VEC, W_PAT_WPT, WPAT('match-grammar', gen_pattern.w_match_grammar, 2500, 100000),
+                    workloads=[W_PAT_VEC, W_PAT_WPT, WPAT('match-grammar', gen_pattern.w_match_grammar, 1500, 100000),
                                WPAT('constructor-strings', gen_pattern.w_constructor_strings, 800, 30000),
+                               WPAT('match-dictionary-inheritance', gen_pattern.w_match_inherit, 500, 20000),
                                WPAT('match-grammar-sanitized', gen_pattern.w_match_grammar, 200, 8000, configs=['asan'])])
 
 
@@ -466,3 +467,13 @@ M_PAT = dict(module='MC_UrlPattern', cfg_quick='MC_UrlPattern_quick', cfg_thorou
 for _p in ('C14', 'C15'):
     PROPS[_p].setdefault('models', []).append(M_PAT)
     PROPS[_p]['workloads'].insert(2, WPAT('tlc-constructor-strings-replayed', w_pat_replay, 1500, 0, replayable=True))
+
+
+# ---- direction A + B for the C API handle layer: MC_CApi (spec/CApi.tla), replayed on the ASan + LSan build
+import gen_capi
+M_CAPI = dict(module='MC_CApi', cfg_quick='MC_CApi_quick', cfg_thorough='MC_CApi_quick', post=[gen_capi.collect], timeout=3000)
+M_CAPI_SIM = dict(module='MC_CApi', cfg='MC_CApi_sim', post=[gen_capi.collect], timeout=3000,
+                  extra=('-simulate', 'num=400', '-depth', '18', '-seed', '17', '-aril', '0'))
+PROPS['C17'].setdefault('models', []).extend([M_CAPI, M_CAPI_SIM])
+PROPS['C17']['workloads'].insert(0, dict(name='tlc-handle-histories-replayed', gen=gen_capi.replay, n_quick=900, n_thorough=0, replayable=True,
+                                         module='TraceCApi', main='capi_main.cpp', configs=['asan']))
